@@ -601,6 +601,14 @@ Fixpoint known_match_unwind_with (cs : list clause) : bool :=
 Definition Known_syntactic (q : query) : bool :=
   existsb (fun s => known_varlen s || known_optwhere s || known_match_unwind_with (q_clauses s)) (q_parts q).
 
+(* some projection of the query carries a LIMIT: the engine may stop evaluating before it reaches
+   the row on which the reference semantics raises an arithmetic error *)
+Definition has_limit (q : query) : bool :=
+  existsb (fun s =>
+             opt_exists (fun _ => true) (p_limit (q_ret s))
+             || existsb (fun c => match c with CWith p _ => opt_exists (fun _ => true) (p_limit p) | _ => false end)
+                        (q_clauses s)) (q_parts q).
+
 Definition check_with (cf : cfg) (c : case) : bool :=
   match c_obs c with
   | ObsPanic => false
@@ -612,7 +620,7 @@ Definition check_with (cf : cfg) (c : case) : bool :=
   | ObsOk o =>
       match check_rows cf (c_graph c) (c_params c) (c_query c) o with
       | Ok b => b
-      | ErrA => false
+      | ErrA => has_limit (c_query c)      (* rows beyond a LIMIT need not be evaluated *)
       | ErrT | Undet => true
       end
   end.
